@@ -81,8 +81,14 @@ class _AliasTracker:
         if not refs:
             return True  # nothing registered → writable
 
-        # drop dead weakrefs
-        alive = self._cleanup_dead_refs(refs)
+        # drop dead weakrefs, and entries of vectors that no longer use this storage:
+        # a vector whose tuple was swapped without unregistering (a Table initialised
+        # twice via Vector([...]) / >>, or after column replacement) would otherwise stay
+        # listed under the id() of a freed tuple, which the interpreter reuses for new ones
+        alive = [
+            r for r in self._cleanup_dead_refs(refs)
+            if id(getattr(r(), "_underlying", None)) == tuple_id
+        ]
         self._registry[tuple_id] = alive
 
         # Count how many Vectors still alive share this tuple
